@@ -179,7 +179,11 @@ class SumAggregator:
                             trigger_index = i
                             continue
                         anon_are_anonymous = False
-                    if anon_are_anonymous and trigger_index is not None:
+                    if (
+                        anon_are_anonymous
+                        and trigger_index is not None
+                        and self.domain_predicates.has_domain(next_anon_pred.pred)
+                    ):
                         return (lit, trigger_index, next_anon_pred)
         return None
 
